@@ -955,7 +955,7 @@ def evaluate(ctx, group, items):
         ctx.count(group, key=json.dumps(case, sort_keys=True, default=str), nontrivial=non_trivial(o), in_guard=guard,
                   intermediate=min(s['intermediate'], 5), generations=min(len(o['mem']['gens']), 8),
                   multi=o['mem']['obj']['multi'])
-        vc = dict(case, summary=s) if isinstance(case, dict) and 'legacy_variant' in case else {'recipe': case, 'summary': s}
+        vc = dict(case, summary=s) if isinstance(case, dict) and ('legacy_variant' in case or 'extend_seed' in case) else {'recipe': case, 'summary': s}
         if not ag:
             ctx.disagree(group, vc, 'model and implementation differ (encode / decode / re-encode)')
         if not ho and guard:
@@ -1001,7 +1001,7 @@ def run(ctx):
                 'add_to_history / add_to_archive_history: the fixed adversarial shapes (empty, zero generations, shared parents, deep '
                 'and shared intermediate lineage, repeated individuals, multi-objective, labels, metadata, archive of intermediates, '
                 'parents and archive members recorded in no generation) and random lineage DAGs, (c) the stored legacy files and current saves rewritten to the earlier '
-                'class paths / keys / plain-list generations; plus every individual dump written during (a) and (b), plus the legacy '
+                'class paths / keys / plain-list generations, (d) continuation: a loaded history extended through add_to_history / add_to_archive_history with new individuals and taken through a second round trip; plus every individual dump written during (a) and (b), plus the legacy '
                 'path tables; distinct = distinct configuration / recipe / file; non-trivial = pool of at least 2 individuals with a parent link')
     ctx.trusted_extra = [
         'json.dumps / json.loads between JSON trees and text (the model works on trees; the driver also compares the texts)',
@@ -1119,8 +1119,73 @@ def run(ctx):
     if items:
         ctx.sample(summary(items[0][2], items[0][0]))
 
+    # ---- (d) continuation: the loaded history is extended and taken through a second round trip
+    items = []
+    pick = real_items[:ctx.pick(4, 30)] + syn_items[:ctx.pick(14, 120)]
+    for k, (desc, case, o0) in enumerate(pick):
+        it = continuation_case(ctx, desc, case, o0, rng.randrange(10 ** 6))
+        if it is not None:
+            items.append(it)
+    evaluate(ctx, 'continuation', items)
+    if items:
+        ctx.sample(summary(items[-1][2], items[-1][0]))
+
     evaluate_dumps(ctx, dumps)
     check_legacy_tables(ctx)
+
+
+def extend_history(h, seed):
+    """continues a (loaded) history through the public API: 1-2 new generations / archive snapshots holding new
+    individuals (children of individuals already in the history, of each other, fresh ones) and old ones"""
+    rng = random.Random(seed)
+    old, seen = [], set()
+    for grp in list(h.generations) + list(h.archive_history):
+        for i in grp:
+            if id(i) not in seen:
+                seen.add(id(i))
+                old.append(i)
+    multi = bool(h.objective.is_multi_objective)
+
+    def new_ind(pool):
+        po = None
+        if pool and rng.random() < 0.75:
+            if len(pool) < 2 or rng.random() < 0.5:
+                po = ParentOperator('mutation', ('ext_mutation',), (rng.choice(pool),))
+            else:
+                po = ParentOperator('crossover', ('ext_crossover',), tuple(rng.sample(pool, 2)))
+        return Individual(mk_graph(rng), parent_operator=po, metadata=dict(mk_meta(rng)), fitness=mk_fitness(rng, multi))
+    new = []
+    for _ in range(rng.randrange(1, 4)):
+        new.append(new_ind(old + new))
+    members = list(new) + ([rng.choice(old)] if old and rng.random() < 0.5 else [])
+    h.add_to_history(members, rng.choice([None, 'continued']), rng.choice([None, {'round': 2}]))
+    h.add_to_archive_history([rng.choice(members)] + ([rng.choice(old)] if old and rng.random() < 0.3 else []))
+    if rng.random() < 0.5:
+        hidden = new_ind(old + new)                  # an ancestor recorded in no generation
+        late = Individual(mk_graph(rng), parent_operator=ParentOperator('mutation', ('ext_mutation',), (hidden,)),
+                          fitness=mk_fitness(rng, multi))
+        if rng.random() < 0.5:
+            h.add_to_history([late, rng.choice(new)])
+        h.add_to_archive_history([late])
+    return h
+
+
+def continuation_case(ctx, desc, case, o0, seed):
+    """save -> load -> EXTEND the loaded history -> save -> load -> save: the whole property on the second round trip"""
+    ident = {'recipe': case, 'extend_seed': seed}
+    try:
+        h = extend_history(o0['_loaded_history'], seed)
+        o = observe(h)
+    except TypeViolation as ex:
+        ctx.violate('continuation', ident, 'continued history is not restored: %s' % ex)
+        return None
+    except ShapeError as ex:
+        ctx.disagree('continuation', ident, 'unexpected shape: %s' % ex)
+        return None
+    except ImplRaised as ex:
+        ctx.violate('continuation', ident, 'history continued after loading: %s' % ex)
+        return None
+    return ('continued after load: ' + desc, ident, o)
 
 
 def legacy_rewritten_case(ctx, desc, case, o0, variant, plain):
@@ -1180,6 +1245,11 @@ def replay(ctx, payload):
     else:
         return
     o = observe(h)
+    if case.get('extend_seed') is not None:
+        it = continuation_case(ctx, 'replay', rc, o, case['extend_seed'])
+        if it is not None:
+            evaluate(ctx, 'replay', [it])
+        return
     if case.get('legacy_variant'):
         it = legacy_rewritten_case(ctx, 'replay', rc, o, case['legacy_variant'], bool(case.get('plain')))
         if it is not None:
